@@ -1,6 +1,6 @@
 #!/bin/sh
 # detection margin: for every seeded change / mutant, the number of rejected records on the quick tier per seed
-cd /verif
+cd "$(dirname "$0")/.." && V=$(pwd)   # (a snapshot of /verif runs its own copy)
 for s in seeded/*/patch.diff mutants/*.diff; do
   case $s in seeded/*) id=$(basename $(dirname $s));; *) id=$(basename $s .diff);; esac
   p=$(echo $id | sed 's/^c\([0-9][0-9]\).*/C\1/; s/^x\([0-9][0-9]\).*/X\1/; s/^\(C[0-9][0-9]\).*/\1/')
